@@ -112,7 +112,7 @@ def compile_many(jobs):
 
 
 def build_variant(name, ts=True, san='asan', sched=False, pic=False, entry=('execve-wrapper',),
-                  repo=None, extra_cflags=(), force=True, compiled_in=False, nonreentrant=False, syslog_output=False):
+                  repo=None, extra_cflags=(), force=True, compiled_in=False, nonreentrant=False, syslog_output=False, cfg_def=()):
     """Compile the library sources into BUILD/<name>/obj/*.o; returns dict(dir, objs, cc, cflags, ldflags)."""
     repo = repo or REPO
     d = os.path.join(BUILD, '%s-%d' % (name, os.getpid()))      # per-process: the same check may run twice at the same time
@@ -120,7 +120,7 @@ def build_variant(name, ts=True, san='asan', sched=False, pic=False, entry=('exe
         shutil.rmtree(d, ignore_errors=True)
     od = os.path.join(d, 'obj')
     os.makedirs(od, exist_ok=True)
-    gen_config_h(os.path.join(d, 'inc'), ts=ts, compiled_in=compiled_in, extra_def=(['SNOOPY_CONF_OUTPUT_ENABLED_syslog 1'] if syslog_output else ()))
+    gen_config_h(os.path.join(d, 'inc'), ts=ts, compiled_in=compiled_in, extra_def=(['SNOOPY_CONF_OUTPUT_ENABLED_syslog 1'] if syslog_output else []) + list(cfg_def))
     cc, sflags = SAN[san]
     cflags = COMMON_WARN + sflags + ['-I' + os.path.join(d, 'inc'), '-I' + os.path.join(repo, 'src'),
                                      '-I' + repo] + list(extra_cflags)
@@ -148,7 +148,7 @@ def build_variant(name, ts=True, san='asan', sched=False, pic=False, entry=('exe
     compile_many(jobs)
     ld = [f for f in sflags if f.startswith('-fsanitize')] + ['-ldl', '-lpthread']
     return {'dir': d, 'objs': objs, 'cc': cc, 'cflags': cflags, 'ldflags': ld, 'repo': repo,
-            'san': san, 'ts': ts}
+            'san': san, 'ts': ts, 'nonreentrant': nonreentrant and not sched}
 
 
 def link_harness(v, out, sources, extra_objs=(), extra_cflags=(), extra_ld=(), san_sources=True):
@@ -156,6 +156,9 @@ def link_harness(v, out, sources, extra_objs=(), extra_cflags=(), extra_ld=(), s
     cc = v['cc']
     hobjs = []
     jobs = []
+    nr = os.path.join(VERIF, 'native/nonreentrant.c')
+    if v.get('nonreentrant') and nr not in sources:
+        sources = list(sources) + [nr]      # the library objects of this variant call the counting stand-ins
     for s in sources:
         o = os.path.join(v['dir'], 'h_' + os.path.basename(s)[:-2] + '_' + os.path.basename(out) + '.o')
         fl = ['-O0', '-g', '-D_GNU_SOURCE', '-I' + os.path.join(v['dir'], 'inc'),
